@@ -441,6 +441,9 @@ func (s *Sched) settle(released *thread) bool {
 	}
 }
 
+// nil2 returns the thread to wait for when re-settling without a release.
+func nil2(s *Sched) *thread { return s.last }
+
 type cand struct {
 	name  string
 	label string
@@ -511,6 +514,18 @@ func (s *Sched) loop(prefix []string) {
 		pending := s.unfinished()
 		if len(pending) == 0 {
 			return // every non-daemon participant finished
+		}
+		if len(en) == 0 {
+			// a deadlock persists: look again after a pause before believing a
+			// single snapshot (a goroutine can sit on a runtime-internal mutex
+			// for an instant)
+			time.Sleep(5 * time.Millisecond)
+			s.settle(nil2(s))
+			en = s.enabledSet()
+			pending = s.unfinished()
+			if len(pending) == 0 {
+				return
+			}
 		}
 		if len(en) == 0 {
 			s.trace.Deadlock = true
